@@ -260,6 +260,12 @@ fn msg_stats_into(m: &mut BTreeMap<String, u64>, s: &MsgStats) {
     m.insert("uris_converged".into(), s.uris_converged);
     m.insert("file_left_workspace_and_was_cleared".into(), s.left_workspace);
     m.insert("fixed_problem_cleared".into(), s.cleared_after_fix);
+    m.insert("outlines_read_back".into(), s.outlines_read_back);
+    m.insert("definitions_read_back".into(), s.definitions_read_back);
+    m.insert("answer_shapes_checked".into(), s.shapes_checked);
+    m.insert("partial_inlay_hint_ranges".into(), s.partial_hint_ranges);
+    m.insert("diagnostic_names_read_back".into(), s.diagnostic_names_read_back);
+    m.insert("requests_after_close".into(), s.after_close_requests);
 }
 
 /// Judges one server execution for `prop`.
